@@ -222,6 +222,17 @@ def rdf_cases():
     out.append(("rdf|entity|trailing-slash", pre + (("el", "D", "entity", sl("dir/")),)))
     out.append(("rdf|entity|trailing-dot", pre + (("el", "D", "entity", sl("a.")), ("rel", "D", "derivation", None, (sl("b."), sl("a."), None, None, None)))))
     out.append(("rdf|bundle|unabbreviable-names", pre + (("bun", "B1", sl("run/1")), ("rel", "B1", "derivation", None, (sl("x/2"), sl("x/1"), None, None, None)))))
+    # ... next to a declared namespace that continues after the last '/' of the same URI (rec: <http://a/rec?id=>),
+    # met before and after the unabbreviable sibling
+    pre2 = (("ns", "D", "rec", "AQ"), ("ns", "D", "ex", "A"))
+    rc = lambda l: ("AQ", l, S("rec"))
+    for odd in ("AT&T", "Smith,J", "draft.", "C++"):
+        out.append(("rdf|attribution|unabbreviable-sibling-of-a-query-namespace", pre2 + (
+            ("el", "D", "entity", rc("r17")), ("rel", "D", "attribution", None, (rc("r17"), sl(odd))))))
+        out.append(("rdf|attribution|unabbreviable-sibling-of-a-query-namespace", pre2 + (
+            ("rel", "D", "attribution", None, (sl(odd), rc("r17"))), ("el", "D", "agent", rc("r17")))))
+        out.append(("rdf|bundle|unabbreviable-sibling-of-a-query-namespace", pre2 + (
+            ("bun", "B1", rc("b1")), ("el", "B1", "entity", rc("r17")), ("rel", "B1", "derivation", None, (rc("r17"), sl(odd), None, None, None)))))
     # a document whose TriG text is longer than any copy block and dense in multi-byte characters
     for kind in ("entity", "generation"):
         rec = sweeps.shape_ops("D", S("ex"), "A", kind, () if kind == "entity" else (True, True, True), "id")
